@@ -54,6 +54,10 @@ const C5: &[(&str, &str, &str)] = &[("c", "int", "5")];
 const CB: &[(&str, &str, &str)] = &[("c", "bool", "true")];
 const AB: &[(&str, &str, &str)] = &[("a", "int", "1"), ("b", "int", "2")];
 const NONE: &[(&str, &str, &str)] = &[];
+const CA: &[(&str, &str, &str)] = &[("c", "[int]", "[0]")];
+const CS: &[(&str, &str, &str)] = &[("c", "string", "\"a\"")];
+const CF: &[(&str, &str, &str)] = &[("c", "float", "1.5")];
+const CU: &[(&str, &str, &str)] = &[("c", "int|float|string", "1")];
 
 /// a thread whose program is one atomic cell operation
 macro_rules! one {
@@ -101,6 +105,22 @@ fn cases() -> Vec<Case> {
         case("cell in cell", C5, "shared := mut c", &[("{ inner := *shared; inner += 1 }", &["inner := *shared", "inner += 1"]), one!("std.convert.to_string(shared)"), one!("c *= 2")], Some(3), false),
         case("swap through reads", AB, "", &[("{ t := *a; a = *b; b = t }", &["t := *a", "u := *b", "a = u", "b = t"]), ("{ t := *b; b = *a; a = t }", &["t := *b", "u := *a", "b = u", "a = t"])], Some(2), true),
         case("nested cells both ways", AB, "shared := (mut a, mut b)", &[("{ x := *(shared.0); x += *b }", &["x := *(shared.0)", "t := *b", "x += t"]), ("{ y := *(shared.1); y += *a }", &["y := *(shared.1)", "t := *a", "y += t"])], Some(3), false),
+        // 6. the same guarantees for cells of every content type the assignment operators accept
+        case("array append x2", CA, "", &[one!("c += [1]"), one!("c += [2]")], None, false),
+        case("array append x3", CA, "", &[one!("c += [1]"), one!("c += [2]"), one!("c += [3, 4]")], None, false),
+        case("array append vs assign", CA, "", &[one!("c += [1]"), one!("c = [9]")], None, false),
+        case("array append vs read", CA, "", &[one!("*c"), one!("c += [1]"), one!("std.len(*c)")], None, false),
+        case("array appends own content", CA, "", &[("c += *c", &["t := *c", "c += t"]), one!("c += [7]")], None, false),
+        case("string append x2", CS, "", &[one!("c += \"b\""), one!("c += \"c\"")], None, false),
+        case("string append x3", CS, "", &[one!("c += \"b\""), one!("c += \"c\""), one!("c = \"z\"")], None, false),
+        case("float ops", CF, "", &[one!("c += 0.5"), one!("c *= 2.0"), one!("c -= 0.25")], None, false),
+        case("float div pow", CF, "", &[one!("c /= 4.0"), one!("c **= 2.0")], None, false),
+        case("union cell changes kind", CU, "", &[one!("c = 2.5"), one!("c = \"s\""), one!("*c")], None, false),
+        // 7. state hidden in the parsed program must not couple runs that share no cell
+        case("type filter default cells are private", NONE, "", &[one!("{ it := [1]~ ? mut int; (m, c) := it(); c += 5; *c }"), one!("{ it := [1]~ ? mut int; (m, c) := it(); c += 5; *c }")], None, false),
+        case("type filter default cells, shared function", NONE, "shared := () -> int { it := [1]~ ? mut int; (m, c) := it(); c += 5; return *c }", &[one!("shared()"), one!("shared()")], None, false),
+        case("iterator defaults are private", NONE, "", &[one!("{ it := [mut 1][1:]~; (m, c) := it(); c += 5; *c }"), one!("{ it := [mut 1][1:]~; (m, c) := it(); c += 5; *c }")], None, false),
+        case("array cell two ops each", CA, "", &[("{ c += [1]; c += [2] }", &["c += [1]", "c += [2]"]), ("{ c += [3]; c = *c + [4] }", &["c += [3]", "t := *c", "c = t + [4]"])], Some(3), true),
     ]
 }
 
@@ -211,14 +231,39 @@ fn execution(case: &Case) {
         }
         allowed.insert(format!("results=[{}] cells=[{}]", results.join(" | "), finals(&env)));
     }
-    // concurrent run
+    // runs that share no cell: each gives what it gives when it is the only run (fresh parse, fresh values)
+    let alone: Option<Vec<String>> = case.cells.is_empty().then(|| {
+        case.threads
+            .iter()
+            .map(|(t, _)| {
+                let env = fresh_env(case);
+                run_one(&Code::parse(&env.interp, t).expect("thread program parses"))
+            })
+            .collect()
+    });
+    // concurrent run; threads with the same program text execute one parsed program
     let env = fresh_env(case);
-    let codes: Vec<Code> = case.threads.iter().map(|(t, _)| Code::parse(&env.interp, t).expect("thread program parses")).collect();
+    let mut parsed: Vec<(&str, Code)> = Vec::new();
+    let codes: Vec<Code> = case
+        .threads
+        .iter()
+        .map(|(t, _)| {
+            if let Some((_, code)) = parsed.iter().find(|(text, _)| text == t) {
+                return code.clone();
+            }
+            let code = Code::parse(&env.interp, t).expect("thread program parses");
+            parsed.push((*t, code.clone()));
+            code
+        })
+        .collect();
     let handles: Vec<_> = codes.into_iter().map(|code| big(move || run_one(&code))).collect();
     let results: Vec<String> = handles.into_iter().map(|h| h.join().expect("worker panicked")).collect();
     let outcome = format!("results=[{}] cells=[{}]", results.join(" | "), finals(&env));
     EXECUTIONS.fetch_add(1, Ordering::Relaxed);
     OUTCOMES.lock().unwrap().insert(outcome.clone());
+    if let Some(alone) = alone {
+        assert!(results == alone, "NOT ISOLATED: runs sharing no cell gave {results:?}; each alone gives {alone:?}");
+    }
     assert!(
         allowed.contains(&outcome),
         "NOT LINEARIZABLE: observed {outcome}; interleavings of the atomic operations allow {allowed:?}"
@@ -282,8 +327,8 @@ fn main() {
                 let r = if out.status.success() {
                     stdout.lines().last().and_then(|l| serde_json::from_str::<Value>(l).ok()).ok_or_else(|| format!("no result line: {stdout}"))
                 } else {
-                    let verdict = ["NOT LINEARIZABLE", "deadlock", "Deadlock", "Poison", "worker panicked", "/repo/src"].iter().any(|k| stderr.contains(k));
-                    let lines = stderr.lines().filter(|l| l.contains("NOT LINEARIZABLE") || l.contains("eadlock") || l.contains("panicked") || l.contains("Poison")).take(4).collect::<Vec<_>>().join(" / ");
+                    let verdict = ["NOT LINEARIZABLE", "NOT ISOLATED", "deadlock", "Deadlock", "Poison", "worker panicked", "/repo/src"].iter().any(|k| stderr.contains(k));
+                    let lines = stderr.lines().filter(|l| l.contains("NOT LINEARIZABLE") || l.contains("NOT ISOLATED") || l.contains("eadlock") || l.contains("panicked") || l.contains("Poison")).take(4).collect::<Vec<_>>().join(" / ");
                     if !verdict {
                         eprintln!("MACHINERY ERROR: loom harness {} failed without a verdict: exit {:?}: {lines}", idx, out.status.code());
                         std::process::exit(2);
